@@ -14,10 +14,11 @@ U4S = "u4_params_safety"
 U5 = "u5_hub"
 U6 = "u6_text"
 U7 = "u7_reassembly"
+U8 = "u8_tls"
 
 # units verified as watch-only auxiliaries by every check that has a witness search (U4S is left out:
 # it repeats U4's function without preconditions and fails by design at the known findings D9)
-ALL_UNITS = [U1, U2, U3, U4, U5, U6, U7]
+ALL_UNITS = [U1, U2, U3, U4, U5, U6, U7, U8]
 
 PROPS = {
     "C01": {
@@ -108,7 +109,7 @@ PROPS = {
         "witness": ("w_server", ['w_c12_flush', 'w_c04_big']),
         "title": "The server never waits for input while it owes a flushed reply",
         "kani": [("k7_tls", ["k7_prepended_write", "k7_switchable_plain"])],
-        "verus": [(U1, ["U1.next", "U1.flush", "U1.end", "U1.write"]), (U5, ["U5."])],
+        "verus": [(U1, ["U1.next", "U1.flush", "U1.end", "U1.write"]), (U8, ["U8."]), (U5, ["U5."])],
     },
     "C13": {
         "witness": ("w_server", ['w_c13_errors', 'w_c03_responses']),
@@ -151,7 +152,7 @@ PROPS = {
         "witness": ("w_server", ['w_c04_big', 'w_c11_handshake']),
         "title": "TLS upgrade loses no bytes and leaks no plaintext",
         "kani": [("k7_tls", None)],
-        "verus": [(U1, ["U1.tls", "C04.end", "C04.write", "U1.end", "U1.write"]), (U5, ["C12.init", "C11.auth"])],
+        "verus": [(U1, ["U1.tls", "C04.end", "C04.write", "U1.end", "U1.write"]), (U8, ["U8.", "C12.prepend", "C12.route", "C19.switch"]), (U5, ["C12.init", "C11.auth"])],
     },
     "C19": {
         "witness": ("w_server", ['w_c19_faults']),
@@ -167,3 +168,22 @@ PROPS = {
         "verus": [(U1, ["U1.next", "C01.next"]), (U7, ["C01.packet"]), (U4S, ["U4."]), (U5, ["U5.", "C12.run", "C12.init"])],
     },
 }
+
+
+# ---- systematic property inclusions (DESIGN 11.2 "also") --------------------------------------------------------
+# What a client decodes of a RESPONSE (values, metadata, errors, counts, the greeting) arrives only if the bytes are
+# framed (C04) and numbered (C05) correctly: "data of any length" / "a row larger than 16 MiB arrives intact" are
+# the same statement seen from two properties. Seeded change C06-d (a text row of exactly 0xFFFFFF bytes, broken in
+# PacketConn::write) was missed by C06's check until its framing clauses counted for C06.
+for _p in ("C06", "C07", "C09", "C11", "C13", "C14", "C15"):
+    _a = PROPS[_p].setdefault("also", [])
+    for _c in ("C04.", "C05."):
+        if _c not in _a:
+            _a.append(_c)
+# What the shim sees of a REQUEST (parameters, bound types, long data, statement ids) is what was reassembled from
+# the client's packets (C01; packet(): U7) before it was parsed.
+for _p in ("C08", "C10", "C16", "C17"):
+    _a = PROPS[_p].setdefault("also", [])
+    for _c in ("C01.", "C05.packet", "C20.packet"):
+        if _c not in _a:
+            _a.append(_c)
